@@ -74,6 +74,29 @@ def run(ctx):
                 field = next(n for n, (x, y) in enumerate(zip(t0[k], t1[k])) if x != y)
                 fails.append((i, k, f"{what[field]} differ between {configs[0]} and {cfg}: {json.dumps(t0[k][field])[:300]} vs {json.dumps(t1[k][field])[:300]}"))
                 break
+    # expression terms (every operator, builtins with reference parameters, calls, computed keys) on both builds:
+    # the structure the overloads build and every value / exception class must coincide
+    import C04, refs_shared as rs
+    classes, fns, iderr = rs.ids()
+    tcases = [C04.gen_tree_case(ctx.rng) for _ in range(ctx.pick(300, 6000))]
+    parts = list(vlib.chunks(tcases, 100))
+    both = rs.run_both([{"mode": "c04", "classes": classes, "fns": fns, "cases": pp} for pp in parts])
+    norm = lambda r: json.dumps(r, sort_keys=True).replace("-0x0.0p+0", "0x0.0p+0")
+    term_fail = []
+    k = 0
+    for pi, pp in enumerate(parts):
+        rc, rp = both["compiled"][pi]["results"], both["pure"][pi]["results"]
+        for j in range(len(pp)):
+            if norm(rc[j]) != norm(rp[j]):
+                term_fail.append((k, rc[j], rp[j]))
+            k += 1
+    term_evals = 2 * len(tcases)
+    ctx.obligations.append(("identical structure / values / exception classes of expression terms on the compiled and pure builds",
+                            not term_fail, f"{len(term_fail)} differing terms of {len(tcases)}"))
+    if term_fail and not fails:
+        i, a, b = term_fail[0]
+        vlib.violation(ctx, {"kind": "oracle", "what": "an expression term behaves differently on the compiled and on the pure build",
+                             "term_case": tcases[i], "compiled": a, "pure": b, "how_to_replay": "./check C20 --replay <this file>"})
     for e, a, b in known_finding_status():
         if a != b:
             vlib.known(ctx, f"build-dependent behaviour when assigning an attribute named like a member of the reference class (setattr(ref, '_key', v)): "
@@ -84,8 +107,8 @@ def run(ctx):
         defs = sum(1 for op in c["ops"] if op[0] == "set" and op[2][0] == "expr")
         if defs >= 2 and any(o["trace"] for o in ol):
             ctx.nontrivial.add(json.dumps(c["ops"])[:4000])
-    ctx.evaluations = sum(len(c["ops"]) for c in cases) * len(configs)
-    ctx.traces = len(cases) * len(configs)
+    ctx.evaluations = sum(len(c["ops"]) for c in cases) * len(configs) + term_evals
+    ctx.traces = len(cases) * len(configs) + term_evals
     ctx.samples = [{"ops": cases[0]["ops"][:5], "dump": ref[0][min(4, len(ref[0]) - 1)].get("dump")}]
     ctx.cov["input_distribution"] = {"ops": mc.op_distribution(cases), "configs": [list(c) for c in configs],
                                      "programs_with_ordering_cycle_in_some_config": sum(cyc)}
@@ -95,6 +118,16 @@ def run(ctx):
 
 
 def replay(ctx, data):
+    if data.get("term_case"):
+        import refs_shared as rs
+        classes, fns, _ = rs.ids()
+        both = rs.run_both([{"mode": "c04", "classes": classes, "fns": fns, "cases": [data["term_case"]]}])
+        a, b = both["compiled"][0]["results"][0], both["pure"][0]["results"][0]
+        n = lambda r: json.dumps(r, sort_keys=True).replace("-0x0.0p+0", "0x0.0p+0")
+        print(json.dumps({"compiled": a, "pure": b})[:1500])
+        if n(a) != n(b):
+            print("VIOLATION property=C20 replay=(given): compiled and pure builds differ on this term"); return 1
+        print("replay: both builds agree on this term"); return 0
     case = data.get("case")
     if not case:
         print("no concrete input in this replay file:", data.get("no_longer_checks")); return 1
